@@ -34,7 +34,9 @@ theorem C15_enabled_iff (c : Cache.Ctor) (now : Int) :
       (match c with
        | .newOpts _ (some i) _ _ => decide (i > 0)
        | .newOpts _ none _ _ => true          -- DefaultCleanupInterval = 10 s
-       | .newDefault _ i _ => decide (i > 0)) ∧
+       | .newDefault _ i _ => decide (i > 0)
+       | .newOptsOver _ _ (some i) _ _ => decide (i > 0)
+       | .newOptsOver _ _ none _ _ => true) ∧
     (CacheOf.construct (K := K) (V := V) c now).2 = (Cache.construct (K := K) (V := V) c now).2 := by
   constructor
   · cases c with
@@ -45,6 +47,10 @@ theorem C15_enabled_iff (c : Cache.Ctor) (now : Int) :
     | newDefault d i cb =>
       simp [Cache.construct, Cache.newXsyncMap, Gen.newXsyncMap_dflt, Gen.newXsyncMap_hasCb, Gen.newXsyncMap_janitor, Gen.NewDefault_cfg, Gen.New_cfg, Gen.WithDefaultExpiration, Gen.WithCleanupInterval, Gen.WithEvictedCallback, Gen.WithMinCapacity, List.foldl, Proofs.LeafCache.configDefault_spec]
       omega
+    | newOptsOver b d i cb m =>
+      cases i <;> cases cb <;> cases m <;>
+        simp [Cache.construct, Cache.newXsyncMap, Gen.newXsyncMap_dflt, Gen.newXsyncMap_hasCb, Gen.newXsyncMap_janitor, Gen.NewDefault_cfg, Gen.New_cfg, Gen.WithDefaultExpiration, Gen.WithCleanupInterval, Gen.WithEvictedCallback, Gen.WithMinCapacity, List.foldl, Proofs.LeafCache.configDefault_spec, Gen.DefaultConfig_, Gen.DefaultCleanupInterval] <;>
+        omega
   · rw [Proofs.Twin.construct_eq]
 
 /-- a janitor tick = one `DeleteExpired` pass: afterwards nothing expired at the pass's clock remains, everything
